@@ -37,6 +37,8 @@ def worker_main(args):
   mod = load_check(args.property)
   ctx = common.Ctx(args.property, args.tier, args.seed, args.shard,
                    args.nshards, args.budget)
+  if not args.replay:
+    ctx.checkpoint_path = args.out + '.partial'
   # The process time zone is part of the environment the code runs in (naive local vs
   # naive UTC datetimes): shards run under different zones (POSIX TZ strings, no tzdata
   # needed); a replay runs under the zone recorded with the case.
@@ -145,6 +147,19 @@ def driver_main(args):
           tail = fh.read()[-1500:]
       except OSError:
         pass
+      partial = out + '.partial'
+      if p.returncode is not None and p.returncode < 0 and os.path.exists(partial):
+        # died from a signal (native crash in a numerical library) after it had left a
+        # checkpoint: what it observed until then is used, the crashing case is lost
+        try:
+          with open(partial) as fh:
+            r = json.load(fh)
+          results.append(r)
+          driver_notes.append(f'shard {k} died from signal {-p.returncode} after {r.get("elapsed", 0):.0f} s; '
+                              f'its last checkpoint ({r.get("evaluations")} evaluations) is used')
+          continue
+        except Exception:  # pylint: disable=broad-except
+          pass
       if attempt == 0 and p.returncode is not None and p.returncode < 0:
         # the worker process died from a signal (native crash in a numerical library,
         # OOM kill): nothing it had observed was reported; the shard is run once more
